@@ -1,4 +1,4 @@
-(* PV.C03.Refuted — counter-models of the two OPEN findings of the option-record layer (end of file) and, after the four fix: commits in /repo (19afc56 replace_all in place, 62f6c0f update_abbr_record keeps
+(* PV.C03.Refuted — after the six fix: commits (the last two: 1f66dfa set_option, f53bbd9 remove_option) no statement of C03 is refuted; earlier: after the four fix: commits in /repo (19afc56 replace_all in place, 62f6c0f update_abbr_record keeps
    matching REPLACE records, a3ce367 update_sizes finds / places $SIZES before $PROBLEM) no statement of C03 is refuted
    any more; the former counter-model witnesses are kept as regression examples of the repaired behaviour. *)
 From Coq Require Import String Ascii.
@@ -96,31 +96,22 @@ Example sizes_append_fixed :
 Proof. repeat split; vm_compute; reflexivity. Qed.
 
 (* ------------------------------------------------------------------------------------------------
-   OPEN findings of the option-record layer.  Rule ids: option 10, KEY 11, VALUE 12, EQUAL 13, WS 1. *)
+   Former findings of the option-record layer (fixed by 1f66dfa and f53bbd9).  Rule ids: option 10, KEY 11, VALUE 12, EQUAL 13, WS 1. *)
 Definition opt_est : list node :=          (* root children of '$ESTIMATION METHOD=1 INTER' *)
   [ Tok 1 None (T " ");
     Tree 10 None [Tok 11 None (T "METHOD"); Tok 13 None (T "="); Tok 12 None (T "1")];
     Tok 1 None (T " ");
     Tree 10 None [Tok 11 None (T "INTER")] ].
 
-(* C03-SETOPTION-VALUELESS: set_option on an option without '=value' finds no VALUE child to replace and returns the record
-   unchanged: the guard of Properties.set_option_readback (has_rule VALUE) is necessary. *)
-Theorem set_option_valueless_refuted :
-  exists (ch : list node) (key v : text),
-    (exists o cc, find (keyed 10 11 key) ch = Some o /\ o = Tree 10 None cc /\ has_rule 12 cc = false) /\
-    set_option 10 11 12 13 1 ch key v = Some ch.
-Proof.
-  exists opt_est, (T "INTER"), (T "x"). split; [|vm_compute; reflexivity].
-  eexists. eexists. split; [vm_compute; reflexivity|]. split; reflexivity.
-Qed.
+(* formerly C03-SETOPTION-VALUELESS: set_option('INTER', 'x') returned the record unchanged *)
+Example set_option_valueless_fixed :
+  option_map (flat_map str) (set_option 10 11 12 13 1 opt_est (T "INTER") (T "x")) = Some (T " METHOD=1 INTER=x").
+Proof. vm_compute. reflexivity. Qed.
 
-(* C03-REMOVE-OPTION-FIRST: '$INPUT(A) ID' — the option is the first child of the root, new_children is still empty when it
-   is met, new_children[-1] raises IndexError: the guard of Properties.remove_option_total is necessary. *)
-Theorem remove_option_first_refuted :
-  exists (ch : list node) (key : text),
-    (exists c tl, ch = c :: tl /\ is_target 10 11 key c = Some true) /\ remove_option 10 11 1 ch key = None.
-Proof.
-  exists [Tree 10 None [Tok 11 None (T "(A)")]; Tok 1 None (T " "); Tree 10 None [Tok 11 None (T "ID")]; Tok 3 None (T "
-")], (T "(A)").
-  split; [eexists; eexists; split; [reflexivity | vm_compute; reflexivity] | vm_compute; reflexivity].
-Qed.
+(* formerly C03-REMOVE-OPTION-FIRST: '$INPUT(A) ID' — removing the option that is the first child raised IndexError *)
+Example remove_option_first_fixed :
+  option_map (flat_map str)
+    (remove_option 10 11 1 [Tree 10 None [Tok 11 None (T "(A)")]; Tok 1 None (T " "); Tree 10 None [Tok 11 None (T "ID")]; Tok 3 None (T "
+")] (T "(A)")) = Some (T " ID
+").
+Proof. vm_compute. reflexivity. Qed.
